@@ -46,6 +46,13 @@ impl<L: Language> GlobalRules<L> {
   }
 }
 
+impl<L: Language> GlobalRules<L> {
+  /// check that every utility rule used by the global rules is defined
+  pub(crate) fn verify_utils(&self) -> Result<(), crate::rule_core::RuleCoreError> {
+    self.0.values().try_for_each(|r| r.verify_utils())
+  }
+}
+
 impl<R> Default for Registration<R> {
   fn default() -> Self {
     Self(Default::default())
